@@ -519,6 +519,30 @@ static void g_os(void) {
         if (P == 5 && r == -1 && !fault && h_n == 0) continue;
         judge(1, r != 0, r, SP | CE, 1);
       } }
+    /* the scanf_s family on input that ends before the first conversion, or does not match it: an input failure is a plain status (EOF / 0), not a
+       runtime-constraint violation - no handler */
+    if (P == 5) {
+        int (*ss)(const char *, const char *, ...) = dlsym(L, "sscanf_s"); int (*fs)(FILE *, const char *, ...) = dlsym(L, "fscanf_s"); int (*sc)(const char *, ...) = dlsym(L, "scanf_s");
+        int (*sws)(const wchar_t *, const wchar_t *, ...) = dlsym(L, "swscanf_s"); int (*fws)(FILE *, const wchar_t *, ...) = dlsym(L, "fwscanf_s");
+        int (*vss)(const char *, const char *, va_list) = dlsym(L, "vsscanf_s"); int (*vsws)(const wchar_t *, const wchar_t *, va_list) = dlsym(L, "vswscanf_s");
+        static const char *IN[] = { "", "   ", "x", "12" };
+        if (ss && fs && sc && sws && fws && vss && vsws) for (int ii = 0; ii < 4; ii++) for (int e = 0; e < 5; e++) {
+            static const char *EN[] = { "sscanf_s", "fscanf_s", "scanf_s", "swscanf_s", "fwscanf_s" };
+            char rel[64]; snprintf(rel, sizeof rel, "%s", ii < 2 ? "input-ends-before-the-conversion" : ii == 2 ? "input-does-not-match" : "input-matches");
+            begin(EN[e], rel, "scan %d %d", ii, e);
+            int v = 99, r = 0; wchar_t wi[8]; for (int k = 0; k < 8; k++) wi[k] = (unsigned char)IN[ii][k < (int)strlen(IN[ii]) ? k : (int)strlen(IN[ii])];
+            char inb[8]; strcpy(inb, IN[ii]); FILE *f = NULL;
+            if (e == 1) { f = fmemopen(inb, strlen(inb) ? strlen(inb) : 1, "r"); if (!inb[0]) (void)fgetc(f), clearerr(f); }
+            if (e == 2) { if (stdin) fclose(stdin); stdin = fmemopen(inb, strlen(inb) ? strlen(inb) : 1, "r"); if (!inb[0]) (void)fgetc(stdin), clearerr(stdin); }
+            if (e == 4) { f = tmpfile(); if (f) { if (wi[0]) fputws(wi, f); rewind(f); } }      /* a wide-oriented stream */
+            errno = 0;
+            switch (e) { case 0: CALL(r = ss(inb, "%d", &v)); break; case 1: CALL(r = fs(f, "%d", &v)); break; case 2: CALL(r = sc("%d", &v)); break; case 3: CALL(r = sws(wi, L"%d", &v)); break; default: if (f) CALL(r = fws(f, L"%d", &v)); break; }
+            if (f) fclose(f);
+            if (verbose) printf("OBS %s on \"%s\": ret=%d handler=%d code0=%d\n", EN[e], IN[ii], r, h_n, h_code[0]);
+            if (fault) continue;
+            if (h_n) { char b[64]; snprintf(b, sizeof b, "handler-invoked-for-a-plain-input-failure|code%d", h_code[0]); report(b); }
+        }
+    }
     /* gmtime_s / localtime_s: the out structure is an exact-fit object */
     for (int which = 0; which < 2; which++) for (int ti = 0; ti < 10; ti++) for (int dn = 0; dn < 2; dn++) {
         char rel[64]; snprintf(rel, sizeof rel, "%s,%s", ti == 9 ? "timer-null" : ti < 2 ? "timer-valid" : "timer-extreme", dn ? "dest-null" : "dest");
